@@ -205,8 +205,9 @@ type wproc struct {
 	cmd  *exec.Cmd
 	in   io.WriteCloser
 	out  *bufio.Reader
-	busy bool
-	dead bool
+	busy   bool
+	dead   bool
+	killed bool
 }
 
 func (w *wproc) send(rq wreq) error {
@@ -322,11 +323,37 @@ func coordinate(n int, harnesses []string, maxFind int, budgetS int, outPath str
 			if busy == 0 {
 				break
 			}
-			r := <-replies
+			var r reply
+			if deadline.IsZero() {
+				r = <-replies
+			} else {
+				// past the deadline, workers get a minute to finish the path they are on; then they are stopped
+				wait := time.Until(deadline.Add(60 * time.Second))
+				if wait < time.Second {
+					wait = time.Second
+				}
+				select {
+				case r = <-replies:
+				case <-time.After(wait):
+					if time.Now().After(deadline.Add(60 * time.Second)) {
+						for _, w := range ws {
+							if w.busy && !w.dead {
+								w.killed = true
+								w.cmd.Process.Kill()
+							}
+						}
+					}
+					continue
+				}
+			}
 			busy--
 			r.w.busy = false
 			if r.err != nil {
 				r.w.dead = true
+				if r.w.killed {
+					complete, reason = false, "time budget exhausted (workers stopped on a long path)"
+					continue
+				}
 				workerErr = "worker died: " + r.err.Error()
 				complete, reason = false, workerErr
 				continue
